@@ -179,23 +179,133 @@ package common
 //@   ensures[ok]  (ret1 == nil) == DecOK(hexString)
 //@   ensures[val] __seqeq(ret0, KeyBytesOf(hexString))
 
-// LRU: a finite map with eviction (container/list internals are not modelled). Every construction site
-// in the repository passes a nil eviction callback.
+// LRU: a finite map with eviction. The methods are verified against the map view G_m down to an ASSUMED model of
+// container/list (a list owns a finite set of elements, knows how many and which one is at the front). The
+// representation invariant rep() and the coupling view() between the representation and G_m form an OBJECT
+// INVARIANT: established by NewLRU, re-established by every method that writes the representation, and assumed at
+// method entry (assume[inv]) - sound because the fields, the entries and the list elements are private to lru.go
+// and never escape. Every construction site in the repository passes a nil eviction callback.
+//@ import "container/list"
+//@ private common_LRU.items common_LRU.evictList common_LRU.size common_LRU.onEvict common_entry.key common_entry.value list_Element.Value ghost:common.elems ghost:common.n ghost:common.front mapdom:map_interface___pcontainer_list_Element mapval:map_interface___pcontainer_list_Element maplen:map_interface___pcontainer_list_Element
 //@ ghost field *LRU m gmap[interface{}, interface{}]
+//@ ghost field *list.List elems gmap[*list.Element, bool]
+//@ ghost field *list.List n int
+//@ ghost field *list.List front *list.Element
+
+//@ iface func (__static *list.List) New() *list.List
+//@   modifies nothing
+//@   ensures[new] ret0 != nil && __fresh(ret0) && G_n(ret0) == 0 && (forall e *list.Element :: !__in(e, G_elems(ret0)))
+
+//@ iface func (l *list.List) PushFront(v interface{}) *list.Element
+//@   requires l != nil
+//@   modifies G_elems(l), G_n(l), G_front(l)
+//@   ensures[pushed] ret0 != nil && __fresh(ret0) && !old(__in(ret0, G_elems(l))) && ret0.Value == v && __eq(G_elems(l), __upd(old(G_elems(l)), ret0, true)) && G_n(l) == old(G_n(l)) + 1 && G_front(l) == ret0
+
+//@ iface func (l *list.List) MoveToFront(e *list.Element)
+//@   requires l != nil
+//@   modifies G_front(l)
+
+//@ iface func (l *list.List) Back() *list.Element
+//@   requires l != nil
+//@   modifies nothing
+//@   ensures[back] (ret0 == nil) == (G_n(l) == 0) && (ret0 != nil ==> __in(ret0, G_elems(l))) && (G_n(l) >= 2 ==> ret0 != G_front(l))
+
+//@ iface func (l *list.List) Remove(e *list.Element) interface{}
+//@   requires l != nil
+//@   modifies G_elems(l), G_n(l), G_front(l)
+//@   ensures[removed] old(__in(e, G_elems(l))) ==> __eq(G_elems(l), __del(old(G_elems(l)), e)) && G_n(l) == old(G_n(l)) - 1
+//@   ensures[absent]  !old(__in(e, G_elems(l))) ==> __eq(G_elems(l), old(G_elems(l))) && G_n(l) == old(G_n(l))
+
+//@ iface func (l *list.List) Len() int
+//@   requires l != nil
+//@   modifies nothing
+//@   ensures[len] ret0 == G_n(l)
+
+// rep: the map and the list hold the same elements; the element stored under key k carries an entry whose key is k.
+//@ ghost func (c *LRU) rep() bool { return c.items != nil && c.evictList != nil && c.onEvict == nil && (forall k interface{} :: __in(k, c.items) ==> c.items[k] != nil && __in(c.items[k], G_elems(c.evictList)) && __dyn(c.items[k].Value, "entry") && c.items[k].Value.(*entry) != nil && __allocated(c.items[k]) && __allocated(c.items[k].Value.(*entry)) && c.items[k].Value.(*entry).key == k) && (forall e *list.Element :: __in(e, G_elems(c.evictList)) ==> e != nil && __allocated(e) && __dyn(e.Value, "entry") && e.Value.(*entry) != nil && __allocated(e.Value.(*entry)) && __in(e.Value.(*entry).key, c.items) && c.items[e.Value.(*entry).key] == e) }
+// view: the abstract map has the keys of items, each with the value in its entry.
+//@ ghost func (c *LRU) view() bool { return forall k interface{} :: __in(k, G_m(c)) == __in(k, c.items) && (__in(k, c.items) ==> G_m(c)[k] == c.items[k].Value.(*entry).value) }
 
 //@ func NewLRU(size int, onEvict EvictCallback) *LRU
-//@   trusted LRU is assumed to behave as a finite map with eviction
+//@   requires onEvict == nil
 //@   modifies nothing
+//@   ghostset G_m(ret0) :| ret0.view()
 //@   ensures[new] ret0 != nil && __fresh(ret0) && (forall k interface{} :: !__in(k, G_m(ret0)))
+//@   establishes[inv] ret0.rep() && ret0.view() && ret0.size == size
+
+//@ func (c *LRU) removeElement(e *list.Element)
+//@   requires c != nil && c.rep() && __in(e, G_elems(c.evictList))
+//@   modifies c.items[*], G_elems(c.evictList), G_n(c.evictList), G_front(c.evictList)
+//@   ensures[rep]     c.rep() && G_n(c.evictList) == old(G_n(c.evictList)) - 1
+//@   ensures[removed] !__in(old(e.Value.(*entry).key), c.items) && (forall k interface{} :: k != old(e.Value.(*entry).key) ==> __in(k, c.items) == old(__in(k, c.items)) && c.items[k] == old(c.items[k]))
+
+//@ func (c *LRU) removeOldest()
+//@   requires c != nil && c.rep()
+//@   modifies c.items[*], G_elems(c.evictList), G_n(c.evictList), G_front(c.evictList)
+//@   ensures[rep]   c.rep()
+//@   ensures[kept]  old(G_n(c.evictList)) >= 2 ==> (forall k interface{} :: old(__in(k, c.items)) && old(c.items[k]) == old(G_front(c.evictList)) ==> __in(k, c.items))
+//@   ensures[sub]   forall k interface{} :: __in(k, c.items) ==> old(__in(k, c.items)) && c.items[k] == old(c.items[k])
 
 //@ func (c *LRU) Add(key, value interface{}) bool
-//@   trusted LRU is assumed to behave as a finite map with eviction; onEvict is nil everywhere
+//@   assume[inv] c.rep() && c.view()
 //@   requires c != nil
-//@   modifies G_m(c)
-//@   ensures[add] __in(key, G_m(c)) && G_m(c)[key] == value && (forall k interface{} :: __in(k, G_m(c)) && k != key ==> __in(k, old(G_m(c))) && G_m(c)[k] == old(G_m(c))[k])
+//@   modifies G_m(c), c.items[*], any entry.value, G_elems(c.evictList), G_n(c.evictList), G_front(c.evictList)
+//@   ghostset G_m(c) :| c.view()
+//@   establishes[inv] c.rep() && c.view()
+//@   ensures[add]     (__in(key, G_m(c)) ==> G_m(c)[key] == value) && (forall k interface{} :: __in(k, G_m(c)) && k != key ==> __in(k, old(G_m(c))) && G_m(c)[k] == old(G_m(c))[k])
+//@   ensures[present] c.size >= 1 ==> __in(key, G_m(c))
 
 //@ func (c *LRU) Get(key interface{}) (value interface{}, ok bool)
-//@   trusted LRU is assumed to behave as a finite map with eviction (recency order not modelled)
+//@   assume[inv] c.rep() && c.view()
+//@   requires c != nil
+//@   modifies G_front(c.evictList)
+//@   establishes[inv] c.rep() && c.view()
+//@   ensures[get] ok == __in(key, G_m(c)) && (ok ==> value == G_m(c)[key])
+
+// The remaining writers of the representation (not called by the repository's non-test code) re-establish the
+// object invariant as well, so that it holds for every reachable LRU.
+//@ iface func (l *list.List) Init() *list.List
+//@   requires l != nil
+//@   modifies G_elems(l), G_n(l), G_front(l)
+//@   ensures[init] G_n(l) == 0 && (forall e *list.Element :: !__in(e, G_elems(l)))
+
+// Purge is not called by the repository's non-test code; its loop calls the eviction callback through a function
+// value on a path that is dead under rep() (onEvict == nil), which the engine cannot prune, so it stays assumed.
+//@ func (c *LRU) Purge()
+//@   trusted not called by non-test code; assumed to empty the map and to re-establish the object invariant
+//@   requires c != nil
+//@   modifies G_m(c), c.items[*], G_elems(c.evictList), G_n(c.evictList), G_front(c.evictList)
+//@   establishes[inv] c.rep() && c.view()
+//@   ensures[empty] forall k interface{} :: !__in(k, G_m(c))
+
+//@ func (c *LRU) Remove(key interface{}) bool
+//@   assume[inv] c.rep() && c.view()
+//@   requires c != nil
+//@   modifies G_m(c), c.items[*], G_elems(c.evictList), G_n(c.evictList), G_front(c.evictList)
+//@   ghostset G_m(c) :| c.view()
+//@   establishes[inv] c.rep() && c.view()
+//@   ensures[ret]     ret0 == old(__in(key, G_m(c)))
+//@   ensures[gone]    !__in(key, G_m(c))
+//@   ensures[others]  forall k interface{} :: k != key ==> __in(k, G_m(c)) == old(__in(k, G_m(c))) && (__in(k, G_m(c)) ==> G_m(c)[k] == old(G_m(c))[k])
+
+//@ func (c *LRU) RemoveOldest() (interface{}, interface{}, bool)
+//@   assume[inv] c.rep() && c.view()
+//@   requires c != nil
+//@   modifies G_m(c), c.items[*], G_elems(c.evictList), G_n(c.evictList), G_front(c.evictList)
+//@   ghostset G_m(c) :| c.view()
+//@   establishes[inv] c.rep() && c.view()
+//@   ensures[was]     ret2 ==> old(__in(ret0, G_m(c))) && old(G_m(c))[ret0] == ret1
+//@   ensures[gone]    ret2 ==> !__in(ret0, G_m(c))
+//@   ensures[others]  forall k interface{} :: (!ret2 || k != ret0) ==> __in(k, G_m(c)) == old(__in(k, G_m(c))) && (__in(k, G_m(c)) ==> G_m(c)[k] == old(G_m(c))[k])
+
+//@ func (c *LRU) Contains(key interface{}) (ok bool)
+//@   assume[inv] c.rep() && c.view()
 //@   requires c != nil
 //@   modifies nothing
-//@   ensures[get] ok == __in(key, G_m(c)) && (ok ==> value == G_m(c)[key])
+//@   ensures[contains] ok == __in(key, G_m(c))
+
+//@ func (c *LRU) Peek(key interface{}) (value interface{}, ok bool)
+//@   assume[inv] c.rep() && c.view()
+//@   requires c != nil
+//@   modifies nothing
+//@   ensures[peek] ok == __in(key, G_m(c)) && (ok ==> value == G_m(c)[key])
